@@ -418,7 +418,7 @@ fn run_unit(tier: &str, unit: usize, out: &mut Out) {
     let u = unit - nrt;
     let k = TOKENS.len();
     let l = token_len(tier);
-    let mut run = |w: &[usize], out: &mut Out| {
+    let run = |w: &[usize], out: &mut Out| {
         let s: String = w.iter().map(|i| TOKENS[*i]).collect();
         out.evaluations += 1;
         let res = check_parse(&s);
